@@ -69,7 +69,7 @@ var errnos = []string{"ENOSPC", "EIO", "EACCES", "EMFILE", "ENFILE", "EROFS", "E
 
 type site struct{ target, syscall string }
 
-var sites = []site{{"src", "newfstatat"}, {"src", "openat"}, {"src", "fstat"}, {"src", "read"}, {"src", "close"}, {"dst", "openat"}, {"dst", "write"}, {"dst", "close"}, {"dst", "fstat"}}
+var sites = []site{{"src", "newfstatat"}, {"src", "openat"}, {"src", "fstat"}, {"src", "read"}, {"src", "close"}, {"dst", "openat"}, {"dst", "write"}, {"dst", "write"}, {"dst", "close"}}
 
 func (c *c19Ctx) genScenario(seed uint64, progs []*c19Prog) *Scenario {
 	r := NewRNG(seed)
@@ -142,7 +142,14 @@ func (c *c19Ctx) genScenario(seed uint64, progs []*c19Prog) *Scenario {
 			s.Fault = &Fault{Kind: "nofile", K: r.Range(3, 9)}
 		default:
 			st := sites[r.Intn(len(sites))]
-			s.Fault = &Fault{Kind: "strace", Target: st.target, Syscall: st.syscall, When: r.Range(1, 3), Errno: pick(r, errnos)}
+			when := 1
+			if st.syscall == "read" || (st.target == "dst" && (st.syscall == "openat" || st.syscall == "close")) {
+				when = r.Range(1, 2) // calls that occur twice (second open/close only on the WCOFF path)
+			}
+			if r.Chance(1, 8) {
+				when = r.Range(1, 4)
+			}
+			s.Fault = &Fault{Kind: "strace", Target: st.target, Syscall: st.syscall, When: when, Errno: pick(r, errnos)}
 		}
 		if s.Fault.Kind == "strace" && (s.DstKind == "dev_full" || s.DstKind == "emptyarg" || s.SrcKind == "emptyarg") {
 			// -P on a device node would also match nothing useful; keep the natural /dev/full fault alone
@@ -151,6 +158,9 @@ func (c *c19Ctx) genScenario(seed uint64, progs []*c19Prog) *Scenario {
 	}
 	return s
 }
+
+var gridReachable = map[string]bool{}
+var gridTraces = map[string][]string{}
 
 func gridScenarios(c *c19Ctx, progs []*c19Prog, mode string, baseSeed uint64) []*Scenario {
 	var out []*Scenario
@@ -187,19 +197,37 @@ func gridScenarios(c *c19Ctx, progs []*c19Prog, mode string, baseSeed uint64) []
 				out = append(out, s2)
 			}
 		}
-		whens := []int{1, 2}
+		// reachable sites: what a fault-free run actually does on the two paths
+		tr := mk(&Fault{Kind: "trace"})
+		to, _, err := c.execute(tr, false)
+		if err != nil || to == nil || len(to.Trace) == 0 {
+			infraFail("cannot trace the fault-free run of %s: %v", p.Name, err)
+		}
+		counts := map[string]int{}
+		var order []string
+		for _, e := range to.Trace {
+			if counts[e] == 0 {
+				order = append(order, e)
+			}
+			counts[e]++
+		}
 		es := []string{"ENOSPC", "EIO", "EINTR", "EMFILE"}
 		if mode == "full" {
-			whens = []int{1, 2, 3}
 			es = errnos
 		}
-		for _, st := range sites {
-			for _, w := range whens {
-				for _, e := range es {
-					out = append(out, mk(&Fault{Kind: "strace", Target: st.target, Syscall: st.syscall, When: w, Errno: e}))
+		for _, e := range order {
+			tg, sys, _ := strings.Cut(e, ":")
+			n := counts[e]
+			for w := 1; w <= n; w++ {
+				for _, en := range es {
+					out = append(out, mk(&Fault{Kind: "strace", Target: tg, Syscall: sys, When: w, Errno: en}))
+					gridReachable[tg+":"+sys+":"+en+":"+out[len(out)-1].format()] = true
 				}
 			}
+			// control: an ordinal the run never reaches must not fire
+			out = append(out, mk(&Fault{Kind: "strace", Target: tg, Syscall: sys, When: n + 1, Errno: "EIO"}))
 		}
+		gridTraces[p.Name] = to.Trace
 		for k := 3; k <= 9; k++ {
 			out = append(out, mk(&Fault{Kind: "nofile", K: k}))
 		}
@@ -516,7 +544,13 @@ func runC19(tierName string) int {
 	if len(samples) == 0 {
 		samples = append(samples, "none recorded")
 	}
-	possibleCells := len(sites) * len(errnos) * 2
+	possibleCells := len(gridReachable)
+	gridHit := 0
+	for k := range gridReachable {
+		if A.gridCells[k] {
+			gridHit++
+		}
+	}
 	ev := &Evidence{PropertyID: "C19", Tier: tier.name, Seed: int64(baseSeed), Level: "fault_enumeration", WallS: wall, Violations: violations,
 		Assumptions: []string{
 			"Image(src) is what the in-process API (native worker, same working tree) assembles from the comment-free form of the same lines",
@@ -534,7 +568,7 @@ func runC19(tierName string) int {
 			"faults_planned":                     A.faultsPlanned,
 			"faults_fired":                       A.faultsFired,
 			"fault_address_miss":                 A.faultMiss,
-			"fault_grid_coverage":                map[string]any{"cells_hit": len(A.gridCells), "cells_possible": possibleCells, "cell": "target:syscall:errno:format with an injected fault that actually fired"},
+			"fault_grid_coverage":                map[string]any{"reachable_cells_hit": gridHit, "reachable_cells": possibleCells, "cells_hit_including_random_scenarios": len(A.gridCells), "cell": "target:syscall:errno:format with an injected fault that actually fired; reachable = the syscall occurs on that path in the fault-free strace of the grid program", "fault_free_traces": gridTraces},
 			"exit_status_histogram":              A.exitHist,
 			"expectation_histogram":              A.expectPins,
 			"argv_shapes":                        A.shapes,
